@@ -11,7 +11,7 @@ def observe(spec, inputs):
         P = n.pnd.ge_polyhedron(M)
         pts = inputs["pts"]
         nd = spec["ndim"]
-        arr = numpy.array(pts[0][0] if nd == 1 else (pts[0] if nd == 2 else pts), dtype=numpy.int64)
+        arr = numpy.array(pts[0][0] if nd == 1 else (pts[0] if nd == 2 else pts), dtype=getattr(numpy, spec.get("pdtype") or "int64"))
         M = numpy.asarray(M)
         if spec.get("edit"):
             # inputs["A"], inputs["b"] hold the content AFTER the edit; start from a different content, call, then edit in place
